@@ -278,6 +278,11 @@ def one_set(ctx, idx, probes):
                         variants.append(("after_failed", run(types)))
                     except Exception as e:
                         ctx.refute(None, "variant after_failed failed: %r" % e, dict(set=idx, root=root, lang=lang))
+                for nth in (1, 2):
+                    try:
+                        variants.append(("same_generator_after_failure", run(types, fail_first=nth)))
+                    except Exception as e:
+                        ctx.refute(None, "variant same_generator_after_failure failed: %r" % e, dict(set=idx, root=root, lang=lang))
                 try:
                     variants.append(("same_outdir_crlf", run(types, crlf_first=True)))
                 except Exception as e:
@@ -292,7 +297,7 @@ def one_set(ctx, idx, probes):
                         ctx.refute(None, "variant same_generator failed: %r" % e, dict(set=idx, root=root, lang=lang, pre_calls=pre))
             for v in range(nvar):
                 kind = R.choice(["perm", "subset", "closed", "again", "after_other", "after_config", "config_vs_fresh", "same_generator", "after_failed", "shared_pp_list",
-                                 "after_other_whitespace", "after_template_set_change", "same_outdir_crlf"])
+                                 "after_other_whitespace", "after_template_set_change", "same_outdir_crlf", "same_generator_after_failure"])
                 if kind == "config_vs_fresh" and (lang == "html" or tdir or cfgx):
                     kind = "perm"
                 if kind == "after_template_set_change" and not tdir:
@@ -341,6 +346,8 @@ def one_set(ctx, idx, probes):
                         variants.append((kind, run(types, templates_dir=tmut)))
                     elif kind == "same_outdir_crlf":
                         variants.append((kind, run(types, crlf_first=True)))
+                    elif kind == "same_generator_after_failure":
+                        variants.append((kind, run(types, fail_first=R.choice([1, 1, 2, 3]))))
                     elif kind == "perm":
                         variants.append((kind, run(types, order_seed=R.random())))
                     elif kind == "subset":
